@@ -615,7 +615,8 @@ func rpcIsEmpty(r *RPC) bool {
 const pbFieldNumberLT15Size = 1
 
 func sovRpc(x uint64) (n int) {
-	return (bits.Len64(x) + 6) / 7
+	// x|1: a zero value still takes one byte on the wire (as in pb.sovRpc)
+	return (bits.Len64(x|1) + 6) / 7
 }
 
 func sizeOfEmbeddedMsg(
